@@ -129,7 +129,19 @@ static const char *run_case_child2(FILE *out, const char *id, char comps, unsign
     if (strchr(checks, 'i')) interfering_load(comps, flags, filters, fsroot, cpuid);
     hwloc_topology_t b = load(flags, filters);
     if (!b) snprintf(notes + strlen(notes), notescap - strlen(notes), " NONDETERMINISTIC:second-load-failed");
-    else { snprintf(tag2, sizeof tag2, "%s.b", id); dump_topology(out, b, tag2); fprintf(out, "REL same %s %s\n", tag, tag2); hwloc_topology_destroy(b); }
+    else {
+      snprintf(tag2, sizeof tag2, "%s.b", id); dump_topology(out, b, tag2); fprintf(out, "REL same %s %s\n", tag, tag2);
+      /* the dump carries the object tree; CPU kinds, memory attributes, distances and infos are compared through the XML export of
+       * the two loads, which must be byte-identical (C18-r8: a static left by the first load changed the CPU kinds of the second) */
+      char *xa = NULL, *xb = NULL; int la = 0, lb = 0;
+      if (hwloc_topology_export_xmlbuffer(a, &xa, &la, 0) == 0 && hwloc_topology_export_xmlbuffer(b, &xb, &lb, 0) == 0) {
+        if (la != lb || memcmp(xa, xb, (size_t) la))
+          snprintf(notes + strlen(notes), notescap - strlen(notes), " NONDETERMINISTIC:xml-export-of-second-load-differs(%d-vs-%d-bytes)", la, lb);
+      }
+      if (xa) hwloc_free_xmlbuffer(a, xa);
+      if (xb) hwloc_free_xmlbuffer(b, xb);
+      hwloc_topology_destroy(b);
+    }
   }
   if (strchr(checks, 'd')) {
     hwloc_topology_t c = load(flags ^ HWLOC_TOPOLOGY_FLAG_INCLUDE_DISALLOWED, filters);
